@@ -1,6 +1,7 @@
 mod alloc;
 mod batch;
 mod cc;
+mod cl;
 mod ex;
 mod exec;
 mod h1;
@@ -94,6 +95,7 @@ fn main() {
         "C12" => go!(ex::ExRig),
         "C11" => go!(wk::WkRig),
         "C13" => go!(cc::CcRig),
+        "C17" => go!(cl::ClRig),
         "C14" => go!(ws::WsRig),
         "C15" => go!(mp::MpRig),
         _ => {
